@@ -241,6 +241,11 @@ func (e *Engine) canonicalise(st *State, base ObjID, roots []Value) []Value {
 	if st.next <= base {
 		return roots
 	}
+	for _, p := range st.parked {
+		if p.parkNext > base {
+			return roots // a parked goroutine may refer to objects of this frame: leave the heap as it is
+		}
+	}
 	r := &renamer{e: e, st: st, base: base, ren: map[ObjID]ObjID{}}
 	for _, v := range roots {
 		r.visit(v)
